@@ -271,6 +271,17 @@ class C19:
                         line.append([" " + rng.choice(["ab", "cd", "x", "漢字", "ef gh"]), gen_style(rng) if rng.random() < 0.4 else ""])
                 while term.text_width("".join(t for t, _ in line)) <= W:
                     line.append([" " + rng.choice(WORDS) + " " + rng.choice(WORDS), gen_style(rng) if rng.random() < 0.5 else ""])
+                if rng.random() < 0.5:
+                    # runs of blanks *inside* a styled piece, right where the console will wrap, followed
+                    # by text in another style: wrapping drops blanks, it must not move anyone's styling
+                    cut = 0
+                    for j, (t, _) in enumerate(line):
+                        cut += term.text_width(t)
+                        if cut >= W - 6:
+                            pad = " " * max(1, W - cut + rng.randint(0, 3))
+                            line[j] = [t + pad, gen_style(rng) or "red"]
+                            line.insert(j + 1, [rng.choice(["ccc", "dd ee", "漢字 x"]), rng.choice(["", "", "bold blue"])])
+                            break
                 wide[tok] = line
             elif cfg["family"] == "enc":
                 line = gen_line(rng, tok, W)
@@ -834,6 +845,16 @@ class Proxy:
                 # wrapping may move and drop blanks, never another character
                 want = "".join(ch for t, _ in pieces for ch in t if not ch.isspace())
                 have = "".join(c[0] for r in rows for c in r if c[0] and not c[0].isspace())
+                # styling, independently of rich's layout too: the same encoded line on a terminal wide
+                # enough not to wrap gives every non-blank character its cell attributes
+                flat = term.Screen(100000, 4)
+                flat.feed(ln.translate(STRIP) + "\n")
+                want_cells = [c for c in flat.cells(0) if c[0] and not c[0].isspace()]
+                have_cells = [c for r in rows for c in r if c[0] and not c[0].isspace()]
+                if want == have and want_cells != have_cells:
+                    i = next((i for i, (a, b) in enumerate(zip(want_cells, have_cells)) if a != b), 0)
+                    self._v("style", "line-style-moved-in-wrapping", "a redirected line wider than the console: character %d %r is laid out with style %r, written with %r" % (
+                        i, want_cells[i][0] if i < len(want_cells) else "", have_cells[i][1] if i < len(have_cells) else None, want_cells[i][1] if i < len(want_cells) else None))
                 if want != have:
                     self._v("complete", "line-incomplete", "a redirected line wider than the console lost characters in wrapping: wrote %r, laid out as %r" % (want[:120], have[:120]))
                 out.extend(rows)
